@@ -724,6 +724,12 @@ func (fr *Frame) lookup(ins *ssa.Lookup) {
 	if x.Map == nil || x.Map.opaque {
 		res = fr.havoc(mt.Elem(), "mapv")
 		ok = vc.fresh("mapok", "Bool")
+		if u, isLoad := ins.X.(*ssa.UnOp); isLoad && isStringT(mt.Elem()) {
+			if _, isG := u.X.(*ssa.Global); isG {
+				// the values of a package-level map literal of strings are constants (static data)
+				vc.assume(le(add(res.L[0], res.L[1]), intLit(staticEnd)))
+			}
+		}
 	} else {
 		zl := flatten(mt.Elem())
 		res = &Val{T: mt.Elem()}
